@@ -75,6 +75,9 @@ class ParagraphsMergingISDFilter(ISDFilter):
         for div in original_divs:
           div.remove()
 
+        for style_prop in paragraphs[0].iter_styles():
+          target_paragraph.set_style(style_prop, paragraphs[0].get_style(style_prop))
+
         for (index, p) in enumerate(paragraphs):
           for span in list(p):
             # Remove child from its parent body
